@@ -1191,7 +1191,11 @@ def run_xls_files(ctx, n_files, tag):
             ctx.count("xls:fstring:%s:%s" % (mode, "continued" if len(frs) > 1 else "one-record"))
             if entries[-1].get("runs") is not None: ctx.count("xls:sst:rich")
             if entries[-1].get("ext") is not None: ctx.count("xls:sst:phonetic")
-        wb = {"sst": entries, "sheets": [{"name": "S", "cells": cells, "dimensions": "none"}]}
+        # the CodePage record of the globals: any value or none (BIFF8 text is Unicode whatever it says;
+        # audit-2 finding XLS-1), and a sheet name in 8- or 16-bit storage
+        cp = rng.choice(xlsgen.CODEPAGES)
+        ctx.count("xls:codepage:%s" % ("none" if cp is None else cp))
+        wb = {"codepage": cp, "sst": entries, "sheets": [{"name": "S", "cells": cells, "dimensions": "none"}]}
         stats = {}
         # a small record limit on a long table means thousands of CONTINUE records (slow in the extracted
         # model, and nothing a writer produces): keep it for the short tables
